@@ -501,10 +501,55 @@ def replay_file(ctx, pid, path):
         res = replay(ctx, binp, runs, "replay")
         report(ctx, pid, res, "replay")
         findings_reached(ctx, pid, runs, res, "replay")
+    elif d.get("kind") == "tracker":
+        binp = ctx.go_build("trackcheck")
+        runs = os.path.join(ctx.scratch, "one.ndjson")
+        open(runs, "w").write(json.dumps(d["behaviour"]) + "\n")
+        out = os.path.join(ctx.scratch, "one.json")
+        ctx.run([binp, "-rf", str(d.get("rf", 3)), "-in", runs, "-out", out])
+        for mm in (json.load(open(out)).get("mismatches") or []):
+            ctx.violation("the real quorum ack tracker deviates from AckTracker.tla at step %d: %s" % (mm["step"], mm["what"][:900]), path)
     elif "rejected" in d:
         ctx.log("a rejected controller trace is not replayable (schedules of the Go runtime); rejected event: %s" % json.dumps(d["rejected"]))
     else:
         ctx.log("unknown replay format")
+
+
+def ack_tracker(ctx):
+    """C08, the commit rule itself: AckTracker.tla models the leader's quorum ack tracker with its API in the
+    environment the leader gives it (followers may acknowledge whatever is durable on the leader, in any
+    cross-follower order, with duplicates, also before the leader's own sync callback advanced the head).
+    TLC checks exhaustively that the commit offset is monotone, never passes the head and EQUALS the highest
+    offset acknowledged by RF/2 followers; simulated behaviours are replayed on the real tracker object."""
+    quick = ctx.tier == "quick"
+    for cfg in ("acktracker-rf3.cfg", "acktracker-rf5.cfg"):
+        r = ctx.tlc("AckTrackerMC", cfg, label=cfg[:-4], timeout=600)
+        ctx.log("%s: %d distinct states, %d transitions; CommitLeHead, CommitSound, CommitExact, DoneOkCommitted hold" % (cfg, r.distinct, r.generated))
+    m = ctx.tlc("AckTrackerMC", "acktracker-mutant-drop.cfg", label="acktracker-mutant", allow_violation=True, timeout=600, seed=False)
+    if m.ok or "CommitExact" not in m.out:
+        raise vf.Inconclusive("the specification mutant that drops early acks is not caught by CommitExact: the invariant is vacuous")
+    binp = ctx.go_build("trackcheck")
+    for cfg, rf in (("acktracker-runs.cfg", 3), ("acktracker-runs5.cfg", 5)):
+        r = ctx.tlc("AckTrackerSim", cfg, simulate="num=%d" % (300 if quick else 5000), depth=26, workers=1, label="tracksim-rf%d" % rf)
+        runs = os.path.join(ctx.scratch, "track-runs-%d.ndjson" % rf)
+        seen = set()
+        with open(runs, "w") as f:
+            pre = '<<"RUN", "'
+            for l in r.out.splitlines():
+                if l.startswith(pre) and l.endswith('">>') and l not in seen:
+                    seen.add(l)
+                    f.write(l[len(pre):-3].replace('\\"', '"').replace("\\\\", "\\") + "\n")
+        if not seen:
+            raise vf.Inconclusive("AckTrackerSim exported no behaviours")
+        out = os.path.join(ctx.scratch, "track-res-%d.json" % rf)
+        ctx.run([binp, "-rf", str(rf), "-in", runs, "-out", out])
+        res = json.load(open(out))
+        ctx.replayed += res["behaviours"]
+        ctx.log("quorum tracker RF=%d: %d behaviours (%d steps) replayed on the real tracker, %d deviations" %
+                (rf, res["behaviours"], res["steps"], len(res.get("mismatches") or [])))
+        for i, mm in enumerate((res.get("mismatches") or [])[:3]):
+            p = ctx.save_replay("tracker-rf%d-%d.json" % (rf, i), dict(mm, rf=rf, kind="tracker"))
+            ctx.violation("the real quorum ack tracker (RF=%d) deviates from AckTracker.tla at step %d: %s" % (rf, mm["step"], mm["what"][:900]), p)
 
 
 def write_pipe(ctx, pid):
@@ -665,6 +710,8 @@ def run(ctx, pid):
         lin_stress(ctx, binp)
     if pid in ("C02", "C08"):
         write_pipe(ctx, pid)
+    if pid in ("C08", "C01"):
+        ack_tracker(ctx)
     # the same with a spare node and a node swap (ensemble change, removed node deleted after the election)
     r = ctx.tlc("OxiaShardSim", "shard-runs-swap.cfg", simulate="num=%d" % (num // 4), depth=56, workers=1, label="simswap")
     sruns = os.path.join(ctx.scratch, "runs-swap.ndjson")
